@@ -6,8 +6,10 @@ Usage:  py2coq.py <src-dir (…/src/hpack)> <out-dir (…/coq/Gen)>
 
 Writes GData.v (module- and class-level constants, evaluated from their defining
 expressions), GInt.v, GTable.v, GHuff.v (function bodies), GDecoder.v, GEncoder.v
-(_unicode_if_needed and the methods of hpack.Decoder / hpack.Encoder except
-Encoder.encode and the __init__s, whose arguments are dynamically typed) and
+(_unicode_if_needed and the methods of hpack.Decoder / hpack.Encoder), GInit.v (the
+__init__ of HeaderTable, Decoder, Encoder: the record each one builds), GApi.v
+(Encoder.encode, _to_bytes, _dict_to_iterable, whose arguments are dynamically typed:
+translated under the explicit typed view documented at VIEW_PARAMS below) and
 status.json (per definition: "translated" or "unsupported: <construct at line>").  Anything
 outside the supported subset makes *that definition* unsupported; nothing is
 guessed.  Docstrings, comments, annotations (beyond the types they give),
@@ -67,6 +69,75 @@ CONST_ATTRS = {("Encoder", "huffman_coder"): "HuffmanEncoder"}
 # header values (hpack.struct): class -> constructor of HV.Model.Decoder.hclass
 HEADER_CLASSES = {"HeaderTuple": "Decoder.HPlain", "NeverIndexedHeaderTuple": "Decoder.HNever"}
 HEADER_ANNS = {"HeaderTuple", "NeverIndexedHeaderTuple", "HeaderWeaklyTyped", "Header"}
+# ---- The typed view of the dynamically typed arguments of the API (Encoder.encode, _to_bytes,
+# _dict_to_iterable).  These functions accept values of several Python types; the translation is made
+# under an explicit restriction of what the values can be -- the types of HV.Model.Api:
+#   pystr      a bytes object (PBytes b) or a str (PText u, u its UTF-8 encoding);
+#   hform      one header: a 2-tuple (F2), a 3-tuple whose last element is True/False/None (F3),
+#              a HeaderTuple (FHeaderTuple) or a NeverIndexedHeaderTuple (FNever), of two pystr;
+#   container  a list (CList) or a one-shot iterator (CIter) of hform, or a dict from pystr to pystr
+#              (CDict: its items in insertion order).
+# Values outside the view (str() of other objects, longer tuples, other mappings) are NOT covered: code
+# that only they can reach is reported in a comment of the generated text and left out, and a construct
+# that has no rule below makes the definition unsupported.  A variable of a view type carries the facts
+# that the tests on the path to it have established ("dict", "ht", "len3", "bytes", "str", ...): a
+# projection that is only meaningful for some constructors is emitted only where the fact is known.
+# The rules are in Tr.E0 / Tr.refine (each marked `view:`); the projections are VIEW_PRELUDE.
+def view(base, facts=()):
+    return ("view", base, frozenset(facts))
+
+
+def is_view(t, base=None):
+    return isinstance(t, tuple) and len(t) == 3 and t[0] == "view" and (base is None or t[1] == base)
+
+
+def with_fact(t, *fs):
+    return ("view", t[1], t[2] | set(fs))
+
+
+def has_fact(t, f):
+    return is_view(t) and f in t[2]
+
+
+T_PYSTR, T_HFORM, T_CONTAINER = view("pystr"), view("hform"), view("container")
+T_ITEMS = ("dictview", T_PYSTR, T_PYSTR)     # a dict seen as the list of its items
+T_FLAG = ("opt", "bool")                     # True, False or None
+VIEW_CTY = {"pystr": "Api.pystr", "hform": "Api.hform", "container": "Api.container"}
+# (class, function, parameter) -> view type; function -> view type of the result; functions that are
+# translated as plain values (they must not be able to raise)
+VIEW_PARAMS = {(None, "_to_bytes", "value"): T_PYSTR,
+               (None, "_dict_to_iterable", "header_dict"): T_ITEMS,
+               ("Encoder", "encode", "headers"): T_CONTAINER}
+VIEW_RETURNS = {(None, "_dict_to_iterable"): ("iter", T_HFORM)}
+TOTAL_FUNS = {"_to_bytes", "_dict_to_iterable"}
+VIEW_PRELUDE = """(* The typed view (tools/py2coq/py2coq.py, "typed view"): projections of the API values.  A projection that
+   is meaningful for some constructors only is emitted by the translator only under a test that
+   establishes them; its value elsewhere is arbitrary and never used. *)
+Definition pystr_is_bytes (s : Api.pystr) : bool := match s with Api.PBytes _ => true | Api.PText _ => false end.
+(* the bytes of a bytes object; of a str, its UTF-8 encoding = value.encode("utf-8") *)
+Definition pystr_payload (s : Api.pystr) : bytes := match s with Api.PBytes b => b | Api.PText u => u end.
+(* isinstance(h, HeaderTuple): NeverIndexedHeaderTuple is a subclass *)
+Definition form_is_header_tuple (h : Api.hform) : bool :=
+  match h with Api.FHeaderTuple _ _ | Api.FNever _ _ => true | _ => false end.
+(* the class attribute `indexable` (under form_is_header_tuple) *)
+Definition form_indexable (h : Api.hform) : bool := match h with Api.FNever _ _ => false | _ => true end.
+Definition form_len (h : Api.hform) : Z := match h with Api.F3 _ _ _ => 3 | _ => 2 end.
+Definition form_item0 (h : Api.hform) : Api.pystr :=
+  match h with Api.F2 n _ | Api.F3 n _ _ | Api.FHeaderTuple n _ | Api.FNever n _ => n end.
+Definition form_item1 (h : Api.hform) : Api.pystr :=
+  match h with Api.F2 _ v | Api.F3 _ v _ | Api.FHeaderTuple _ v | Api.FNever _ v => v end.
+(* h[2] (under form_len h > 2): True, False or None *)
+Definition form_item2 (h : Api.hform) : option bool := match h with Api.F3 _ _ f => f | _ => None end.
+Definition container_is_dict (c : Api.container) : bool := match c with Api.CDict _ => true | _ => false end.
+(* the items of a dict (under container_is_dict) *)
+Definition container_items (c : Api.container) : list (Api.pystr * Api.pystr) :=
+  match c with Api.CDict items => items | _ => [] end.
+(* iter(c) of a list or an iterator (under negb container_is_dict): what it yields *)
+Definition container_forms (c : Api.container) : list Api.hform :=
+  match c with Api.CList l | Api.CIter l => l | Api.CDict _ => [] end.
+
+"""
+
 # Python names that are not usable as Coq identifiers are suffixed with "_"
 RESERVED = {"match", "with", "end", "fun", "let", "in", "if", "then", "else", "return", "as", "at", "fix",
             "cofix", "forall", "exists", "Type", "Prop", "Set", "struct", "where", "for", "using", "mod"}
@@ -96,6 +167,14 @@ def cty(t):
         return "hexstr"
     if t == "header":
         return "Decoder.header"
+    if is_view(t):
+        return VIEW_CTY[t[1]]
+    if t[0] == "dictview":
+        return f"(list ({cty(t[1])} * {cty(t[2])}))"
+    if t[0] == "dkey":
+        return f"({cty(t[1])} * {cty(t[2])})"
+    if t[0] == "iter":
+        return f"(list {cty(t[1])})"
     if t[0] == "obj":
         return CLASSES[t[1]][0]
     if t[0] == "opt" and t[1] is None:
@@ -259,6 +338,7 @@ class Meth:
         self.cname, self.rw, self.ptys, self.rty = cname, rw, ptys, rty
         self.pnames = pnames if pnames is not None else [None] * len(ptys)
         self.total, self.defaults, self.ok = total, defaults or {}, ok
+        self.truthy = set()   # parameters that the body only uses as the operand of `not` or as a test
 
     def __iter__(self):   # (cname, rw, ptys, rty), the original tuple form
         return iter((self.cname, self.rw, self.ptys, self.rty))
@@ -281,6 +361,9 @@ class Fn:
         self.classes = classes or {}
         self.fd = fd
         self.bytearray_funs = set(bytearray_funs)
+        self.struct_ok = False    # hpack.struct says HeaderTuple.indexable = True, NeverIndexedHeaderTuple(HeaderTuple).indexable = False
+        self.init_fields = None   # inside __init__: attribute of self -> (local name, type), as they get assigned
+        self.inits = {}           # class -> Coq name of its translated __init__ (a constant: no parameters)
         self.fresh = 0
         self.nloops = 0
 
@@ -305,6 +388,7 @@ class Tr:
         self.loopvars = []
         self.ret_vars = set()
         self.unify_ok = 0   # > 0 inside the arms of an If that joins (None gets its type at the join)
+        self.total = False  # the function is translated as a plain value: nothing in it may raise
         self.pure = 0       # > 0 inside a block of a mutating method that is translated as a plain outcome
 
     def rw(self):
@@ -313,16 +397,22 @@ class Tr:
 
     # ---- answer-type dependent emitters
     def ret(self, v):
+        if self.total:
+            return f"({v})"
         if self.loop:
             return f"Return ({v}) {self.loop[-1]}"
         return f"(Ok ({v}), self)" if self.rw() else f"Ok ({v})"
 
     def raise_(self, e):
+        if self.total:
+            raise Unsupported("raise in a function translated as a plain value")
         if self.loop:
             return f"Raise {e} {self.loop[-1]}"
         return f"(Err {e}, self)" if self.rw() else f"Err {e}"
 
     def bind(self, m, pat, k):
+        if self.total:
+            raise Unsupported(f"`{m.split(' ')[0]}` can raise, in a function translated as a plain value")
         if self.loop:
             p = pat[1:] if pat.startswith("'") else pat
             return f"match {m} with Err e_ => Raise e_ {self.loop[-1]} | Ok {p} =>\n{k} end"
@@ -352,6 +442,13 @@ class Tr:
         """(Coq text, class, field to store a new state back into or None, kind) of a receiver"""
         fn = self.fn
         if not fn.cls:
+            return None
+        if fn.init_fields is not None:
+            # inside __init__ there is no self yet, only the attributes assigned so far
+            if isinstance(n, ast.Attribute) and isinstance(n.value, ast.Name) and n.value.id == "self" \
+                    and n.attr in fn.init_fields and isinstance(fn.init_fields[n.attr][1], tuple) \
+                    and fn.init_fields[n.attr][1][0] == "obj":
+                return fn.init_fields[n.attr][0], fn.init_fields[n.attr][1][1], None, "init"
             return None
         if isinstance(n, ast.Name) and n.id == "self":
             return "self", fn.cls, None, "self"
@@ -403,6 +500,13 @@ class Tr:
                 a = m.defaults.get(m.pnames[i])
                 if a is None:
                     bad(call, "call arity")
+            if pt == "bool" and isinstance(a, ast.Name) and env.get(a.id) == T_FLAG:
+                # view: the callee only ever tests this parameter (`not p`, `if p`), so that True / False /
+                # None can be passed as their truthiness
+                if m.pnames[i] not in m.truthy:
+                    bad(a, "True/False/None passed where a bool is more than tested")
+                ts.append(f"((flag_truthy {a.id}))")
+                continue
             b, t, ty = self.E(a, env, pt)
             if ty != pt:
                 bad(a, f"argument of type {ty} for a parameter of type {pt}")
@@ -421,6 +525,80 @@ class Tr:
             k = f"{v} <- {m} ;;\n{k}"
         return k
 
+    # ---- the typed view: tests and the facts they establish
+    def typeof_subject(self, n, env):
+        """the pystr variable v when n is type(v), or a variable still bound to type(v)"""
+        if isinstance(n, ast.Call) and isinstance(n.func, ast.Name) and n.func.id == "type" and len(n.args) == 1 \
+                and not n.keywords and isinstance(n.args[0], ast.Name) and is_view(env.get(n.args[0].id), "pystr"):
+            return n.args[0].id
+        if isinstance(n, ast.Name) and isinstance(env.get(n.id), tuple) and env[n.id][0] == "typeof":
+            v = env[n.id][1]
+            # v has not been assigned since: its type still carries the mark of this variable
+            if has_fact(env.get(v), ("tvar", n.id)):
+                return v
+        return None
+
+    def view_test(self, test, env):
+        """(variable, fact if true, fact if false) when the test is one the typed view interprets"""
+        if isinstance(test, ast.UnaryOp) and isinstance(test.op, ast.Not):
+            r = self.view_test(test.operand, env)
+            return None if r is None else (r[0], r[2], r[1])
+        if isinstance(test, ast.Call) and isinstance(test.func, ast.Name) and test.func.id == "isinstance" \
+                and len(test.args) == 2 and not test.keywords and isinstance(test.args[0], ast.Name) \
+                and isinstance(test.args[1], ast.Name):
+            x, c = test.args[0].id, test.args[1].id
+            if is_view(env.get(x), "container") and c == "dict":
+                return x, "dict", "notdict"
+            if is_view(env.get(x), "hform") and c == "HeaderTuple" and self.fn.struct_ok:
+                return x, "ht", "notht"
+            return None
+        if isinstance(test, ast.Compare) and len(test.ops) == 1:
+            op, l, c = test.ops[0], test.left, test.comparators[0]
+            # len(h) > 2: of the forms of the view only the 3-tuple is that long
+            if isinstance(l, ast.Call) and isinstance(l.func, ast.Name) and l.func.id == "len" and len(l.args) == 1 \
+                    and isinstance(l.args[0], ast.Name) and is_view(env.get(l.args[0].id), "hform") \
+                    and isinstance(c, ast.Constant) and type(c.value) is int \
+                    and ((isinstance(op, ast.Gt) and c.value == 2) or (isinstance(op, (ast.GtE, ast.Eq)) and c.value == 3)):
+                return l.args[0].id, "len3", None
+            if isinstance(op, (ast.Is, ast.IsNot)) and isinstance(c, ast.Name) and c.id in ("bytes", "str"):
+                v = self.typeof_subject(l, env)
+                if v is not None:
+                    f = ("bytes", "str") if c.id == "bytes" else ("str", "bytes")
+                    return (v, f[0], f[1]) if isinstance(op, ast.Is) else (v, f[1], f[0])
+        return None
+
+    def static_test(self, test, env):
+        """True / False when the facts known of the view variables decide the test, else None"""
+        if isinstance(test, ast.UnaryOp) and isinstance(test.op, ast.Not):
+            r = self.static_test(test.operand, env)
+            return None if r is None else not r
+        if isinstance(test, ast.Call) and isinstance(test.func, ast.Name) and test.func.id == "isinstance" \
+                and len(test.args) == 2 and isinstance(test.args[0], ast.Name) and isinstance(test.args[1], ast.Name) \
+                and test.args[1].id == "dict" and isinstance(env.get(test.args[0].id), tuple) \
+                and env[test.args[0].id][0] == "dictview":
+            return True
+        r = self.view_test(test, env)
+        if r is not None:
+            x, ft, ff = r
+            if ft is not None and has_fact(env[x], ft):
+                return True
+            if ff is not None and has_fact(env[x], ff):
+                return False
+        return None
+
+    def refine(self, test, env):
+        """the environments of the two arms of a test"""
+        r = self.view_test(test, env)
+        if r is None:
+            return env, env
+        x, ft, ff = r
+        et, ee = dict(env), dict(env)
+        if ft is not None:
+            et[x] = with_fact(env[x], ft)
+        if ff is not None:
+            ee[x] = with_fact(env[x], ff)
+        return et, ee
+
     def with_bindings(self, bs, k):
         for v, m in reversed(bs):
             k = self.bind(m, v, k)
@@ -429,6 +607,21 @@ class Tr:
     # ---- coercion into Optional slots
     def coerce(self, text, have, want, node=None):
         if want is None or have == want:
+            return text
+        # view: the facts are not part of the type
+        if is_view(have) and is_view(want) and have[1] == want[1]:
+            return text
+        # view: a pystr known to be a bytes object, used as bytes
+        if has_fact(have, "bytes") and is_view(have, "pystr") and want == "bytes":
+            return f"(pystr_payload {text})"
+        # view: a container known to be a dict, seen as its items
+        if has_fact(have, "dict") and is_view(have, "container") and want == T_ITEMS:
+            return f"(container_items {text})"
+        # view: a key obtained from d.keys() is carried with its value; used as the key itself
+        if isinstance(have, tuple) and have[0] == "dkey" and is_view(want) and is_view(have[1]) and have[1][1] == want[1]:
+            return f"(fst {text})"
+        if isinstance(have, tuple) and have[0] == "iter" and isinstance(want, tuple) and want[0] == "iter" \
+                and is_view(have[1]) and is_view(want[1]) and have[1][1] == want[1][1]:
             return text
         if have == "noneval" and isinstance(want, tuple) and want[0] == "opt":
             return "None"
@@ -469,11 +662,17 @@ class Tr:
             if n.id in env:
                 if env[n.id] == ("opt", None):
                     bad(n, "use of a variable that is None before its type is known")
+                if isinstance(env[n.id], tuple) and env[n.id][0] == "typeof":
+                    bad(n, "a type object used as a value")
                 return [], n.id, env[n.id]
             if n.id in fn.consts:
                 return [], n.id, fn.consts[n.id]
             bad(n, f"unknown name {n.id}")
         if isinstance(n, ast.Attribute):
+            if isinstance(n.value, ast.Name) and n.value.id == "self" and fn.init_fields is not None:
+                if n.attr in fn.init_fields:
+                    return [], fn.init_fields[n.attr][0], fn.init_fields[n.attr][1]
+                bad(n, "attribute read before it is assigned")
             if isinstance(n.value, ast.Name) and n.value.id == "self" and fn.cls:
                 fields = CLASSES[fn.cls][1]
                 if n.attr in fields:
@@ -500,7 +699,16 @@ class Tr:
             if isinstance(n.value, ast.Name) and n.value.id == "self" and fn.cls and fn.classes.get(fn.cls) \
                     and n.attr in fn.classes[fn.cls].const_attrs:
                 bad(n, "a constant object used as a value")
+            # view: the class attribute `indexable` of a form known to be a HeaderTuple
+            if n.attr == "indexable" and isinstance(n.value, ast.Name) and has_fact(env.get(n.value.id), "ht") \
+                    and is_view(env[n.value.id], "hform") and fn.struct_ok:
+                return [], f"(form_indexable {n.value.id})", "bool"
             bad(n, "attribute")
+        if isinstance(n, ast.Tuple) and is_view(want, "hform") and len(n.elts) == 2:
+            # view: a plain pair is the form F2
+            ab, a, aty = self.E(n.elts[0], env, T_PYSTR)
+            vb, v, vty = self.E(n.elts[1], env, T_PYSTR)
+            return ab + vb, f"(Api.F2 {a} {v})", want
         if isinstance(n, ast.Tuple):
             wants = want[1] if (isinstance(want, tuple) and want[0] == "tuple" and len(want[1]) == len(n.elts)) \
                 else (want[1][1] if (isinstance(want, tuple) and want[0] == "opt" and isinstance(want[1], tuple)
@@ -566,6 +774,13 @@ class Tr:
         if isinstance(n, ast.Compare) and len(n.ops) == 1:
             op = n.ops[0]
             c = n.comparators[0]
+            if isinstance(op, (ast.Is, ast.IsNot)) and isinstance(c, ast.Name) and c.id in ("bytes", "str"):
+                # view: the type of a pystr is bytes or str
+                v = self.typeof_subject(n.left, env)
+                if v is None:
+                    bad(n, "type test")
+                t = f"(pystr_is_bytes {v})"
+                return [], (t if (c.id == "bytes") == isinstance(op, ast.Is) else f"(negb {t})"), "bool"
             if isinstance(op, (ast.Is, ast.IsNot)) and isinstance(c, ast.Constant) and c.value is None:
                 lb, l, lt = self.E(n.left, env)
                 if not (isinstance(lt, tuple) and lt[0] == "opt"):
@@ -618,6 +833,20 @@ class Tr:
                 if ht != "int":
                     bad(n, "slice bound")
                 return vb + lb + hb, f"(slice_Z {v} ({l}) ({h}))", vt
+            if is_view(vt, "hform"):
+                # view: the elements of a form; the third exists for a 3-tuple only
+                i = n.slice.value if isinstance(n.slice, ast.Constant) and type(n.slice.value) is int else None
+                if i in (0, 1):
+                    return vb, f"(form_item{i} {v})", T_PYSTR
+                if i == 2 and has_fact(vt, "len3"):
+                    return vb, f"(form_item2 {v})", T_FLAG
+                bad(n, "element of a header form")
+            if isinstance(vt, tuple) and vt[0] == "dictview":
+                # view: d[k] for a key k that came from d.keys() -- it is carried with its value
+                ib, i, it = self.E(n.slice, env)
+                if not (isinstance(it, tuple) and it[0] == "dkey" and isinstance(n.value, ast.Name) and it[3] == n.value.id):
+                    bad(n, "dict lookup")
+                return vb + ib, f"(snd {i})", vt[2]
             if vt == "header":
                 # a header is the pair (name, value) of its class
                 if isinstance(n.slice, ast.Constant) and n.slice.value in (0, 1) and not isinstance(n.slice.value, bool):
@@ -641,6 +870,41 @@ class Tr:
         if isinstance(n, ast.Call):
             f = n.func
             if isinstance(f, ast.Name):
+                if f.id == "isinstance" and len(n.args) == 2 and not n.keywords:
+                    # view: class tests on a container / a form
+                    st = self.static_test(n, env)
+                    if st is not None:
+                        return [], ("true" if st else "false"), "bool"
+                    r = self.view_test(n, env)
+                    if r is None:
+                        bad(n, "isinstance")
+                    fun_ = "container_is_dict" if r[1] == "dict" else "form_is_header_tuple"
+                    return [], f"({fun_} {r[0]})", "bool"
+                if f.id == "iter" and len(n.args) == 1 and not n.keywords and isinstance(n.args[0], ast.Name) \
+                        and is_view(env.get(n.args[0].id), "container"):
+                    # view: iter() of a list / an iterator of forms
+                    if not has_fact(env[n.args[0].id], "notdict"):
+                        bad(n, "iter of a container that may be a dict")
+                    return [], f"(container_forms {n.args[0].id})", ("iter", T_HFORM)
+                if f.id == "sorted" and len(n.args) == 1 and len(n.keywords) == 1 and n.keywords[0].arg == "key" \
+                        and isinstance(n.keywords[0].value, ast.Lambda):
+                    # sorted(xs, key=lambda k: <bool>): stable, False before True
+                    lam = n.keywords[0].value
+                    a = lam.args
+                    if len(a.args) != 1 or a.vararg or a.kwarg or a.kwonlyargs or a.defaults or a.posonlyargs:
+                        bad(n, "lambda form")
+                    xb, xs, xt = self.E(n.args[0], env)
+                    if not (isinstance(xt, tuple) and xt[0] == "list"):
+                        bad(n, "sorted of " + str(xt))
+                    env2 = dict(env)
+                    env2[a.args[0].arg] = xt[1]
+                    kb, k, kt = self.E(lam.body, env2)
+                    if kb or kt != "bool":
+                        bad(n, "sort key that can raise or is not a bool")
+                    return xb, f"(stable_sort_by (fun {a.args[0].arg} => {k}) {xs})", xt
+                if f.id == "len" and len(n.args) == 1 and isinstance(n.args[0], ast.Name) \
+                        and is_view(env.get(n.args[0].id), "hform"):
+                    return [], f"(form_len {n.args[0].id})", "int"
                 if f.id == "len" and len(n.args) == 1:
                     b, t, ty = self.E(n.args[0], env)
                     if not (ty in ("bytes", "hex") or (isinstance(ty, tuple) and ty[0] == "list")):
@@ -686,6 +950,13 @@ class Tr:
                             bad(n, "header constructor argument")
                         return ab + vb, f"({k}, {a}, {v})", "header"
                     bad(n, "header constructor")
+                if f.id in CLASSES and not n.args and not n.keywords:
+                    # C(): the object its __init__ builds
+                    if f.id not in fn.inits:
+                        bad(n, f"constructor of {f.id}")
+                    return [], fn.inits[f.id], ("obj", f.id)
+                if f.id == "deque" and not n.args and not n.keywords and isinstance(want, tuple) and want[0] == "list":
+                    return [], "[]", want
                 if f.id in ("bytearray", "bytes") and len(n.args) == 0:
                     return [], "[]", "bytes"
                 if f.id in ("bytearray", "bytes") and len(n.args) == 1:
@@ -732,6 +1003,25 @@ class Tr:
                     if kt != "bytes":
                         bad(n, "dict key type")
                     return db + kb, f"(assoc_bytes {k} {d})", ("opt", dt[2])
+                # view: d.keys() of a dict seen as its items: each key carried with its value
+                if f.attr == "keys" and not n.args and not n.keywords and isinstance(f.value, ast.Name) \
+                        and isinstance(env.get(f.value.id), tuple) and env[f.value.id][0] == "dictview":
+                    dt = env[f.value.id]
+                    return [], f.value.id, ("list", ("dkey", dt[1], dt[2], f.value.id))
+                # x.startswith(prefix) of byte strings
+                if f.attr == "startswith" and len(n.args) == 1 and not n.keywords:
+                    xb, x, xt = self.E(f.value, env)
+                    pb, p_, pt = self.E(n.args[0], env)
+                    if xt != "bytes" or pt != "bytes":
+                        bad(n, "startswith")
+                    return xb + pb, f"(bytes_startswith {x} {p_})", "bool"
+                # view: s.encode("utf-8") of a pystr known to be a str: its UTF-8 encoding
+                if f.attr == "encode" and len(n.args) == 1 and not n.keywords and isinstance(n.args[0], ast.Constant) \
+                        and n.args[0].value == "utf-8" and isinstance(f.value, ast.Name) \
+                        and is_view(env.get(f.value.id), "pystr"):
+                    if not has_fact(env[f.value.id], "str"):
+                        bad(n, "encode of a value that may not be a str")
+                    return [], f"(pystr_payload {f.value.id})", "bytes"
                 # x.decode("utf-8") of a byte string
                 if f.attr == "decode" and len(n.args) == 1 and not n.keywords and isinstance(n.args[0], ast.Constant) \
                         and n.args[0].value == "utf-8":
@@ -817,6 +1107,8 @@ class Tr:
             return b, f"(negb (len {t} =? 0))"
         if isinstance(ty, tuple) and ty[0] == "opt" and isinstance(ty[1], tuple) and ty[1][0] == "tuple":
             return b, f"(opt_truthy {t})"
+        if ty == T_FLAG:
+            return b, f"(flag_truthy {t})"     # None and False are false
         if ty == "header":
             return b, "true"      # a pair is never empty
         if ty == ("opt", "header"):
@@ -954,8 +1246,23 @@ class Tr:
                         b, t, aty = self.E(v.args[0], env, "int")
                         return self.with_bindings(b, self.bind(f"append_byte {nm} ({t})", nm, cont(env)))
                     if isinstance(ty, tuple) and ty[0] == "list":
-                        b, t, aty = self.E(v.args[0], env, ty[1])
-                        return self.with_bindings(b, f"let {nm} := {nm} ++ [{t}] in\n" + cont(env))
+                        a0 = v.args[0]
+                        mo = self.method_of(a0) if isinstance(a0, ast.Call) else None
+                        if mo is not None and mo[0].rw:
+                            # xs.append(recv.m(...)) for a mutating method m
+                            m, recv, setter, kind = mo
+                            if kind == "const" or (ty[1] is not None and ty[1] != m.rty):
+                                bad(s, "appended mutating call")
+                            bs, ts = self.call_args(m, a0, env)
+                            x = fn.tmp()
+                            env2 = dict(env)
+                            env2[nm] = ("list", m.rty)
+                            return self.with_bindings(bs, self.state_call(
+                                s, self.call_text(m, recv, ts), setter, x, f"let {nm} := {nm} ++ [{x}] in\n" + cont(env2)))
+                        b, t, aty = self.E(a0, env, ty[1])
+                        env2 = dict(env)
+                        env2[nm] = ("list", aty)     # the first element gives the type of a list that was []
+                        return self.with_bindings(b, f"let {nm} := {nm} ++ [{t}] in\n" + cont(env2))
             bad(s, "expression statement")
         if isinstance(s, ast.AnnAssign) and s.value is None and isinstance(s.target, ast.Name):
             return cont(env)      # a declaration
@@ -1009,7 +1316,22 @@ class Tr:
                     want = fn.ret_type
                 if want is None and ann_want is not None:
                     want = ann_want
+                v_ = self.typeof_subject(s.value, env) if isinstance(s.value, ast.Call) else None
+                if v_ is not None:
+                    # view: t = type(v).  Nothing is emitted; the tests on t are tests on v, for as long as v
+                    # keeps this type (an assignment to v gives it a new one, without the mark)
+                    env2 = dict(env)
+                    env2[t.id] = ("typeof", v_)
+                    env2[v_] = with_fact(env[v_], ("tvar", t.id))
+                    return cont(env2)
+                if want is None and isinstance(s.value, ast.List) and not s.value.elts:
+                    # x = []: the type of the elements is that of the first one appended
+                    env2 = dict(env)
+                    env2[t.id] = ("list", None)
+                    return f"let {t.id} := [] in\n" + cont(env2)
                 b, txt, ty = self.E(s.value, env, want)
+                if isinstance(ty, tuple) and ty[0] == "iter":
+                    self.check_one_shot(s, t.id)
                 if ty == "noneval":
                     if not self.unify_ok:
                         bad(s, "None assigned to a variable of unknown type")
@@ -1035,6 +1357,12 @@ class Tr:
                 # recv.prop = v: the property setter of self / of an object held by self
                 recv, cls, setter, kind = self.objpath(t.value)
                 m = fn.classes[cls].setters.get(t.attr) if cls in fn.classes else None
+                if m is None and kind == "field" and t.attr in CLASSES[cls][1] and self.rw():
+                    # self.<object>.<attribute> = v: a plain attribute of the object held by self
+                    f, fty = CLASSES[cls][1][t.attr]
+                    b, txt, ty = self.E(s.value, env, fty)
+                    return self.with_bindings(
+                        b, f"let self := set_{setter} (set_{f} ({txt}) {recv}) self in\n" + cont(env))
                 if m is None or kind == "const":
                     bad(s, "assignment target")
                 b, txt, ty = self.E(s.value, env, m.ptys[0])
@@ -1099,8 +1427,17 @@ class Tr:
             if not self.loop:
                 bad(s, "continue outside a loop")
             return f"Next {self.loop[-1]}"
+        if isinstance(s, ast.If) and self.static_test(s.test, env) is not None:
+            # view: the facts known here decide the test; the other arm can only be reached by values
+            # outside the typed view and is left out
+            st = self.static_test(s.test, env)
+            live = s.body if st else s.orelse
+            note = (f"(* typed view: the test at line {s.lineno} is {'true' if st else 'false'} here; "
+                    f"its other arm is outside the view and left out *)\n")
+            return note + self.B(list(live) + rest, env, k)
         if isinstance(s, ast.If):
             var, positive = self.narrow(s.test)
+            env_then, env_else = self.refine(s.test, env)
             ft_then, ft_else = self.falls_through(s.body), (self.falls_through(s.orelse) if s.orelse else True)
             dead = lambda e: "(* unreachable *) tt"
             # Join point: when both arms can fall through into a continuation that is expensive to
@@ -1172,8 +1509,8 @@ class Tr:
                 cb = []
             else:
                 cb, c = self.cond(s.test, env)
-                a = self.B(s.body, env, then_k)
-                b_ = self.B(s.orelse, env, else_k) if s.orelse else else_k(env)
+                a = self.B(s.body, env_then, then_k)
+                b_ = self.B(s.orelse, env_else, else_k) if s.orelse else else_k(env_else)
                 text = f"if {c}\nthen {a}\nelse {b_}"
             if join:
                 if unify:
@@ -1192,6 +1529,15 @@ class Tr:
                     tys = [e[v] for e in exits]
                     if all(t == tys[0] for t in tys) and tys[0] != ("opt", None):
                         envk[v] = tys[0]
+                        continue
+                    if all(is_view(t) and t[1] == tys[0][1] for t in tys):
+                        # view: what is known on every path
+                        envk[v] = view(tys[0][1], frozenset.intersection(*[t[2] for t in tys]))
+                        continue
+                    known = [t for t in tys if t != ("list", None)]
+                    if all(isinstance(t, tuple) and t[0] == "list" for t in tys) and known \
+                            and all(t == known[0] for t in known):
+                        envk[v] = known[0]      # [] on some paths
                         continue
                     # T in some arms, None (or an option of T) in others: an option of T
                     base = [t for t in tys if not (isinstance(t, tuple) and t[0] == "opt")]
@@ -1218,11 +1564,26 @@ class Tr:
                 vars_.append("self")
             if not self.rw() and "self" in vars_:
                 bad(s, "loop mutates self in a read-only method")
+            if any(is_view(env.get(v)) and env[v][2] for v in vars_):
+                env = dict(env)
+                for v in vars_:
+                    if is_view(env.get(v)):
+                        env[v] = view(env[v][1])
             if isinstance(s, ast.For) and "self" in self.assigned(s.body) \
                     and any(isinstance(x, ast.Name) and x.id == "self" for x in ast.walk(s.iter)):
                 bad(s, "loop over a part of self that its body may change")
             pat = _tuple(vars_)
             binder = _binder(vars_)
+            env0 = env
+
+            def nxt(e):
+                # the next iteration starts with the variables as this one leaves them: same types
+                for v in vars_:
+                    a, b_ = env0.get(v), e.get(v)
+                    if v == "self" or a == b_ or a == ("list", None) or (is_view(a) and is_view(b_) and a[1] == b_[1]):
+                        continue
+                    bad(s, f"the loop body changes the type of {v} from {a} to {b_}")
+                return f"Next {pat}"
             if s.orelse:
                 bad(s, "loop else")
             if self.loop:
@@ -1233,12 +1594,12 @@ class Tr:
                 self.loop.append(pat)
                 self.loopvars.append(vars_)
                 if isinstance(s.test, ast.Constant) and s.test.value is True:
-                    body = self.B(s.body, env, lambda e: f"Next {pat}")
+                    body = self.B(s.body, env, nxt)
                 else:
                     cb, c = self.cond(s.test, env)
                     if cb:
                         bad(s, "raising loop test")
-                    body = f"if {c} then\n{self.B(s.body, env, lambda e: f'Next {pat}')}\nelse Break {pat}"
+                    body = f"if {c} then\n{self.B(s.body, env, nxt)}\nelse Break {pat}"
                 self.loop.pop()
                 self.loopvars.pop()
                 head = f"while_fuel ({fuel}) (fun {binder} =>\n{body}) {pat}"
@@ -1246,7 +1607,7 @@ class Tr:
                 it, elt_binder, pre, env_body = self.iterator(s, env)
                 self.loop.append(pat)
                 self.loopvars.append(vars_)
-                body = pre + self.B(s.body, env_body, lambda e: f"Next {pat}")
+                body = pre + self.B(s.body, env_body, nxt)
                 self.loop.pop()
                 self.loopvars.pop()
                 head = f"for_each ({it}) (fun {elt_binder} {binder} =>\n{body}) {pat}"
@@ -1294,6 +1655,51 @@ class Tr:
             inner = self.B(s.body, env, lambda e: (envb.update({v: e[v] for v in vars_}), f"Ok {pat}")[1])
             return f"{_binder(vars_)} <- catch {h.type.id} {to} (\n{inner}) ;;\n" + cont(envb)
         bad(s, "statement")
+
+    def generator(self, fd, env):
+        """a generator function whose only yield is the body of a for loop that ends the function:
+        what it yields, in order -- [e for x in xs].  (When its body runs is not observable: the function is
+        translated as a plain value, so it cannot raise, and it touches nothing but its own locals.)"""
+        ys = [x for x in ast.walk(fd) if isinstance(x, (ast.Yield, ast.YieldFrom))]
+        last = fd.body[-1] if fd.body else None
+        if not (len(ys) == 1 and isinstance(ys[0], ast.Yield) and isinstance(last, ast.For) and not last.orelse
+                and len(last.body) == 1 and isinstance(last.body[0], ast.Expr) and last.body[0].value is ys[0]
+                and ys[0].value is not None and isinstance(last.target, ast.Name)
+                and not any(isinstance(x, ast.Return) for x in ast.walk(fd))):
+            bad(fd, "generator form")
+        rt = self.fn.ret_type
+        if not (isinstance(rt, tuple) and rt[0] == "iter"):
+            bad(fd, "generator result type")
+
+        def tail(e):
+            ib, it, ity = self.E(last.iter, e)
+            if ib or not (isinstance(ity, tuple) and ity[0] == "list"):
+                bad(last, "generator loop")
+            e2 = dict(e)
+            e2[last.target.id] = ity[1]
+            yb, y, yt = self.E(ys[0].value, e2, rt[1])
+            if yb:
+                bad(last, "yielded value that can raise")
+            return f"(map (fun {last.target.id} => {y}) {it})"
+        return self.B(fd.body[:-1], env, tail)
+
+    def check_one_shot(self, node, nm):
+        """nm holds an iterator (iter(...), a generator): it can be consumed once.  Every use of nm is the
+        iterable of a for loop that is not inside another loop, and no path runs two of them -- here,
+        simply: there is exactly one use"""
+        fn = self.fn
+        parents = {}
+        for p in ast.walk(fn.fd):
+            for c in ast.iter_child_nodes(p):
+                parents[c] = p
+        uses = [x for x in ast.walk(fn.fd) if isinstance(x, ast.Name) and x.id == nm and isinstance(x.ctx, ast.Load)]
+        if len(uses) != 1 or not (isinstance(parents.get(uses[0]), ast.For) and parents[uses[0]].iter is uses[0]):
+            bad(node, f"the iterator {nm} is not used exactly once, by a for loop")
+        p = parents[parents[uses[0]]]
+        while p is not fn.fd:
+            if isinstance(p, (ast.For, ast.While, ast.FunctionDef, ast.Lambda, ast.ListComp)):
+                bad(node, f"the iterator {nm} is used inside a loop")
+            p = parents[p]
 
     def check_private_bytearray(self, node, nm):
         """nm is a local bytearray with no other reference to it: every assignment to it is the result of
@@ -1350,7 +1756,7 @@ class Tr:
         if ty == "bytes" and isinstance(tgt, ast.Name):
             env_body[tgt.id] = "int"
             return t, f"{tgt.id}_b", f"let {tgt.id} := bz {tgt.id}_b in\n", env_body
-        if isinstance(ty, tuple) and ty[0] == "list":
+        if isinstance(ty, tuple) and ty[0] in ("list", "iter") and ty[1] is not None:
             p = self.pattern(tgt, ty[1], env_body)
             return t, (p if p.isidentifier() else "'" + p), "", env_body
         bad(s, "iterator type")
@@ -1486,7 +1892,37 @@ def signature(fd, cls):
         if not isinstance(d, ast.Constant):
             raise Unsupported("default value")
         defaults[a.arg] = d
-    return [a.arg for a in args], [ann(a.annotation) for a in args], defaults
+    return [a.arg for a in args], [param_type(fd, cls, a) for a in args], defaults
+
+
+def param_type(fd, cls, a):
+    """the type of a parameter: its annotation, or the typed view of a dynamically typed one"""
+    return VIEW_PARAMS.get((cls, fd.name, a.arg)) or ann(a.annotation)
+
+
+def truthy_only(fd):
+    """the parameters that the body only uses as the operand of `not`, as the test of an if / a conditional
+    expression, or as an argument of a logging call (dropped)"""
+    parents = {}
+    for p in ast.walk(fd):
+        for c in ast.iter_child_nodes(p):
+            parents[c] = p
+    out = set()
+    for a in fd.args.args:
+        ok = True
+        for x in ast.walk(fd):
+            if isinstance(x, ast.Name) and x.id == a.arg:
+                p = parents.get(x)
+                if isinstance(x.ctx, ast.Load) and (
+                        (isinstance(p, ast.UnaryOp) and isinstance(p.op, ast.Not))
+                        or (isinstance(p, (ast.If, ast.IfExp, ast.While)) and p.test is x)
+                        or (isinstance(p, ast.Call) and isinstance(p.func, ast.Attribute)
+                            and isinstance(p.func.value, ast.Name) and p.func.value.id == "log")):
+                    continue
+                ok = False
+        if ok:
+            out.add(a.arg)
+    return out
 
 
 def translate_total(fd, cls, cname, consts, methods, funs, classes):
@@ -1504,15 +1940,85 @@ def translate_total(fd, cls, cname, consts, methods, funs, classes):
     return f"Definition {cname} (self : {CLASSES[cls][0]}){ps} : {cty(rt)} :=\n{t}."
 
 
-def translate_function(fd, cls, cname, rw, consts, methods, funs, classes=None, bytearray_funs=()):
+def translate_init(fd, cls, cname, consts, funs, classes, inits):
+    """__init__ whose body only stores a value that cannot raise into each attribute of self, once:
+    the record of these values (a function of the parameters; their defaults are not modelled)"""
+    rec, fields = CLASSES[cls]
+    args = fd.args.args[1:]
+    if fd.args.vararg or fd.args.kwarg or fd.args.kwonlyargs or fd.args.posonlyargs:
+        raise Unsupported("parameter form")
+    for d in fd.args.defaults:
+        if not (isinstance(d, ast.Constant) or (isinstance(d, ast.Name) and d.id in consts)):
+            raise Unsupported("default value")
+    if ann(fd.returns) != "none":
+        raise Unsupported("__init__ returns")
+    rename_reserved(fd)
+    params = [(a.arg, ann(a.annotation)) for a in args]
+    fn = Fn(fd.name, cls, False, params, "none", consts, {}, funs, classes, fd)
+    fn.init_fields, fn.inits = {}, inits
+    tr = Tr(fn)
+    env = dict(params)
+    consta = classes[cls].const_attrs if cls in classes else {}
+    lets = []
+    for s in fd.body:
+        if isinstance(s, ast.Expr) and isinstance(s.value, ast.Constant):
+            continue
+        if isinstance(s, ast.Assign) and len(s.targets) == 1:
+            t, v = s.targets[0], s.value
+        elif isinstance(s, ast.AnnAssign) and s.value is not None:
+            t, v = s.target, s.value
+        else:
+            bad(s, "statement in __init__")
+        if not (isinstance(t, ast.Attribute) and isinstance(t.value, ast.Name) and t.value.id == "self"):
+            bad(s, "assignment target in __init__")
+        if t.attr in consta:
+            continue        # a constant object (checked by const_attr_text): not part of the state
+        if t.attr not in fields or t.attr in fn.init_fields:
+            bad(s, f"attribute {t.attr} is unknown or assigned twice")
+        f, fty = fields[t.attr]
+        b, txt, ty = tr.E(v, env, fty)
+        if b or ty != fty:
+            bad(s, "value that can raise, or of another type")
+        local = f"self_{t.attr}"
+        if local in env:
+            bad(s, f"name clash on {local}")
+        lets.append(f"let {local} := {txt} in\n")
+        fn.init_fields[t.attr] = (local, fty)
+    missing = [a for a in fields if a not in fn.init_fields]
+    if missing:
+        raise Unsupported(f"__init__ does not assign {missing}")
+    record = "{| " + "; ".join(f"{fields[a][0]} := {fn.init_fields[a][0]}" for a in fields) + " |}"
+    ps = "".join(f" ({n} : {cty(t)})" for n, t in params)
+    return f"Definition {cname}{ps} : {rec} :=\n" + "".join(lets) + record + "."
+
+
+def translate_function(fd, cls, cname, rw, consts, methods, funs, classes=None, bytearray_funs=(), total=False,
+                       struct_ok=False):
     args = fd.args.args[1:] if cls else fd.args.args
     if fd.args.vararg or fd.args.kwarg or fd.args.kwonlyargs:
         raise Unsupported("parameter form")
     rename_reserved(fd)
-    params = [(a.arg, ann(a.annotation)) for a in args]
-    rt = ann(fd.returns, ret=True)
+    params = [(a.arg, param_type(fd, cls, a)) for a in args]
+    rt = VIEW_RETURNS.get((cls, fd.name)) or ann(fd.returns, ret=True)
     fn = Fn(fd.name, cls, rw, params, rt, consts, methods, funs, classes, fd, bytearray_funs)
+    fn.struct_ok = struct_ok
     tr = Tr(fn)
+    if total:
+        if cls or rw:
+            raise Unsupported("a method as a plain value")
+        tr.total = True
+        tr.ret_vars = set()
+        env = dict(params)
+        if any(isinstance(x, (ast.Yield, ast.YieldFrom)) for x in ast.walk(fd)):
+            body = tr.generator(fd, env)
+        else:
+            if tr.falls_through(fd.body):
+                raise Unsupported("the body can end without a return")
+            body = tr.B(fd.body, env, lambda e: bad(fd, "end of the body"))
+        ps = "".join(f" ({n} : {cty(t)})" for n, t in params)
+        return f"Definition {cname}{ps} : {cty(rt)} :=\n{body}."
+    if any(isinstance(x, (ast.Yield, ast.YieldFrom)) for x in ast.walk(fd)):
+        raise Unsupported("generator")
     tr.ret_vars = {s.value.id for s in ast.walk(fd) if isinstance(s, ast.Return) and isinstance(s.value, ast.Name)}
     env = dict(params)
     body = tr.B(fd.body, env, lambda e: tr.ret("tt"))
@@ -1544,6 +2050,24 @@ def module_consts(tree, cenv, status, prefix=""):
             except Unsupported as e:
                 status[prefix + name] = f"unsupported: {e}"
     return out
+
+
+def check_struct(tree):
+    """hpack.struct: HeaderTuple has the class attribute indexable = True, NeverIndexedHeaderTuple is a
+    subclass of it with indexable = False, and nothing else assigns `indexable`"""
+    found = {}
+    for n in tree.body:
+        if isinstance(n, ast.ClassDef):
+            for x in n.body:
+                if isinstance(x, ast.Assign) and len(x.targets) == 1 and isinstance(x.targets[0], ast.Name) \
+                        and x.targets[0].id == "indexable" and isinstance(x.value, ast.Constant) \
+                        and isinstance(x.value.value, bool):
+                    found[n.name] = (x.value.value, [b.id for b in n.bases if isinstance(b, ast.Name)])
+    stores = [x for x in ast.walk(tree) if (isinstance(x, ast.Name) and x.id == "indexable" and isinstance(x.ctx, ast.Store))
+              or (isinstance(x, ast.Attribute) and x.attr == "indexable" and isinstance(x.ctx, ast.Store))]
+    return (len(stores) == 2 and found.get("HeaderTuple", (None,))[0] is True
+            and found.get("NeverIndexedHeaderTuple", (None, []))[0] is False
+            and "HeaderTuple" in found["NeverIndexedHeaderTuple"][1])
 
 
 def find_accessor(tree, cls, prop, setter):
@@ -1652,8 +2176,8 @@ def main():
     funs = {"table_entry_size": ("table_entry_size", ["bytes", "bytes"], ("total", "int"))}
     imp = "From HV Require Import Gen.GData.\n"
 
-    def emit(fname, items, extra):
-        defs = []
+    def emit(fname, items, extra, pre=""):
+        defs = [pre.rstrip("\n")] if pre else []
         for key, thunk, *done in items:
             try:
                 defs.append(thunk())
@@ -1736,6 +2260,11 @@ def main():
                      fun(trees["huffman"], "encode", "HuffmanEncoder", "HuffmanEncoder_encode", False, {})),
                     ("huffman_table.decode_huffman", fun(trees["huffman_table"], "decode_huffman"))], imp)
 
+    try:
+        struct_ok = check_struct(ast.parse(open(os.path.join(src, "struct.py")).read()))
+    except (OSError, SyntaxError):
+        struct_ok = False
+
     # ---------------- hpack.Decoder, hpack.Encoder (objects that hold a HeaderTable)
     hp = trees["hpack"]
 
@@ -1744,7 +2273,9 @@ def main():
 
     def sig_of(fd, cls, cname, **kw):
         pn, pt, df = signature(fd, cls)
-        return Meth(cname, False, pt, ann(fd.returns, ret=True), pn, defaults=df, **kw)
+        m = Meth(cname, False, pt, ann(fd.returns, ret=True), pn, defaults=df, **kw)
+        m.truthy = truthy_only(fd)
+        return m
 
     classes = {c: ClsInfo() for c in CLASSES}
     for nm, m in tmeth.items():
@@ -1786,7 +2317,7 @@ def main():
             if isinstance(fd.returns, ast.Name) and fd.returns.id == "bytearray":
                 bytearray_funs.add(name)
 
-    def object_class(cls, plan, fname, first, extra):
+    def object_class(cls, plan, fname, first, extra, pre=""):
         """plan: (python name, kind, coq name) with kind method | getter | setter, in an order in which
         callees precede callers"""
         defs, names = {}, {}
@@ -1804,7 +2335,7 @@ def main():
         changed = True
         while changed:
             changed = False
-            rwn = {nm for (nm, kind), m in names.items() if kind == "method" and m.rw}
+            rwn = {nm for nm, m in classes[cls].methods.items() if m.rw}
             for (nm, kind), m in names.items():
                 if not m.rw and (kind == "setter" or mutates_self_obj(defs[(nm, kind)], cls, rwn, classes)):
                     if kind == "getter":
@@ -1819,7 +2350,7 @@ def main():
                     raise Unsupported(f"definition {nm} not found or its signature is not supported")
                 fd, m = defs[(nm, kind)], names[(nm, kind)]
                 if kind == "getter":
-                    if mutates_self_obj(fd, cls, {n for (n, k), x in names.items() if k == "method" and x.rw}, classes):
+                    if mutates_self_obj(fd, cls, {n for n, x in classes[cls].methods.items() if x.rw}, classes):
                         raise Unsupported("a property getter that changes self")
                     try:
                         text = translate_total(fd, cls, cname, consts, classes[cls].methods, funs2, classes)
@@ -1828,9 +2359,9 @@ def main():
                     except Unsupported:
                         pass
                 return translate_function(fd, cls, cname, m.rw, consts, classes[cls].methods, funs2, classes,
-                                          bytearray_funs)
+                                          bytearray_funs, struct_ok=struct_ok)
             items.append((key, thunk, names.get((nm, kind))))
-        emit(fname, items, extra)
+        emit(fname, items, extra, pre)
 
     def unicode_if_needed():
         return translate_function(find(hp, "_unicode_if_needed"), None, "_unicode_if_needed", False, consts, {}, funs2)
@@ -1863,6 +2394,41 @@ def main():
                   ("_encode_table_size_change", "method", "Encoder__encode_table_size_change"),
                   ("add", "method", "Encoder_add")],
                  "GEncoder.v", [], imp2)
+
+    # ---------------- the API: Encoder.encode and its helpers, under the typed view (VIEW_*)
+    def total_fun(name):
+        def thunk():
+            if name not in TOTAL_FUNS:
+                raise Unsupported("not translated as a plain value")
+            return translate_function(find(hp, name), None, name, False, consts, {}, funs2, total=True,
+                                      struct_ok=struct_ok)
+
+        def done():
+            fd = find(hp, name)
+            funs2[name] = (name, [param_type(fd, None, a) for a in fd.args.args],
+                           ("total", VIEW_RETURNS.get((None, name)) or ann(fd.returns, ret=True)))
+        return thunk, done
+    imp3 = ("From HV Require Import Prelude.Utf8 Prelude.PyExtra.\n"
+            "From HV Require Model.Api. (* only for the types of the typed view: Api.pystr, Api.hform, Api.container *)\n"
+            "From HV Require Import Gen.GData Gen.GInt Gen.GTable Gen.GHuff Gen.GEncoder.\n")
+    object_class("Encoder", [("encode", "method", "Encoder_encode")], "GApi.v",
+                 [("hpack._to_bytes",) + total_fun("_to_bytes"),
+                  ("hpack._dict_to_iterable",) + total_fun("_dict_to_iterable")], imp3, VIEW_PRELUDE)
+
+    # ---------------- the constructors
+    inits = {}
+
+    def init_of(tree, cls, cname):
+        def thunk():
+            return translate_init(find(tree, "__init__", cls), cls, cname, consts, funs2, classes, inits)
+
+        def done():
+            if not find(tree, "__init__", cls).args.args[1:]:
+                inits[cls] = cname
+        return thunk, done
+    emit("GInit.v", [("table.HeaderTable.__init__",) + init_of(trees["table"], "HeaderTable", "HeaderTable_init"),
+                     ("hpack.Decoder.__init__",) + init_of(hp, "Decoder", "Decoder_init"),
+                     ("hpack.Encoder.__init__",) + init_of(hp, "Encoder", "Encoder_init")], imp)
 
     write_if_changed(os.path.join(out, "status.json"), json.dumps(status, indent=1, sort_keys=True) + "\n")
     bad_ = {k: v for k, v in status.items() if v != "translated"}
